@@ -3,8 +3,9 @@ package main
 func init() {
 	props["C02"] = cfg("./c02", true, withShards(2, 16), withAssume(
 		"schedules are sampled (generated programs, perturbations, export latencies and 1-5 ms export intervals, each program run twice under the race detector), not enumerated",
-		"'reported' = returned by a Collect call that returned nil or contained in a payload handed to the reader's exporter; a user Collect on a PeriodicReader counts as a consumer of that reader's pipeline",
+		"'reported' = returned by a Collect call that returned nil or contained in a payload handed to the reader's exporter before the reader called that exporter's Shutdown (the Exporter interface documents that Export performs no operation afterwards; a third of the generated exporters store such a payload all the same); a user Collect on a PeriodicReader counts as a consumer of that reader's pipeline",
 		"for an export only the instant Export was entered is known: lower bounds (nothing lost / late) are asserted at ManualReader collections and at ForceFlush / Shutdown calls that returned nil, upper bounds (nothing counted twice or invented) at every collection",
+		"a ForceFlush / Shutdown that returned an error is still a flush point unless the error is excused by a scripted callback failure or by a cancelled / expired context: the scripted errors of the harness' exporters are returned after the payload was stored, and a contract exporter refuses only what the reader hands it after shutting it down",
 		"Adds issued while or after Shutdown runs may or may not be reported; calls after Shutdown returned are only required not to panic",
 		"instruments of one meter that share a name but differ in kind or number type are different instruments (the SDK only warns about the duplicate registration and reports each as its own metric); a reported metric is attributed to an instrument by (scope, name, Sum[int64] / Sum[float64], IsMonotonic)",
 		"a reader the program shuts down directly ends its pipeline there (a PeriodicReader's own Shutdown is its final flush point; later Adds are not asserted for it); a MeterProvider.ForceFlush / Shutdown error made only of ErrReaderShutdown (at most one per reader shut down directly by then) counts as a successful flush of every other reader",
